@@ -197,3 +197,5 @@ def run(ctx):
         g = gmeta[i]
         ctx.violation(f"make_seeded_intervals(n={g['n']}, min_length={2 * g['m']}, max_length={g['maxlen']}, growth_factor={g['g']}) = {g['impl_intervals']}: not the intervals "
                       f"of the model for lengths/steps {g['lens']}, or outside [0,n] / the length bounds", g, {"what": "interval-construction"})
+    from harness import helpers as _helpers
+    _helpers.sbs_helpers(ctx)
